@@ -64,6 +64,9 @@ def _perm_result(S):
 
 cp.result_shape = _perm_result
 cp.pure = True
+# C02 (second sentence) / C04: the path whose permission is looked up is the normalised virtual path that get_paths
+# resolved for this request - not the raw argument, not a path joined by hand
+cp.requires(lambda S: hasattr(S.vars["path"], "virtual_of"), "permission-lookup-uses-the-virtual-path-resolved-by-get_paths")
 
 
 # ------------------------------------------------------------------------------------ guards
